@@ -896,7 +896,9 @@ def configs(thorough):
                 for idx in INDEXES:
                     C.append({'fam': fam, 'asc': asc, 'outer': outer, 'index': idx})
     for idx, tg in [([0], 1.0), ([1, 3], -99.0), ([-1], 0.5), ([0, 9], 4.0), ([1, 3], [10.0, 20.0]),
-                    ([0, 2], [1.0, -1.0]), ([0, 9], [10.0, 20.0]), ([0, 1, 2, 3], 0.0)]:
+                    ([0, 2], [1.0, -1.0]), ([0, 9], [10.0, 20.0]), ([0, 1, 2, 3], 0.0),
+                    # an out-of-range index listed BEFORE in-range ones: each index keeps its own target
+                    ([9, 0], [10.0, 20.0]), ([7, 1, 3], [10.0, 20.0, 30.0]), ([9, 1, 0], [1.0, 2.0, 3.0]), ([2, 9, 0], [5.0, 6.0, 7.0])]:
         C.append({'fam': 'impose_at', 'index': idx, 'target': tg})
     masks = [('pair', [[0, 1]]), ('pair_reversed', [[1, 0]]), ('chain', [[0, 1], [1, 2]]),
              ('chain_listed_backwards', [[1, 2], [0, 1]]), ('chain3', [[0, 1], [1, 2], [2, 3]]),
